@@ -33,6 +33,7 @@ type Engine struct {
 	srcCache map[string][]string
 	implIdx  map[string][]*types.Named
 	nnGlobals map[*ssa.Global]int
+	fnGlobals map[*ssa.Global]*ssa.Function
 	repo     string
 }
 
@@ -541,6 +542,40 @@ func (eng *Engine) nonNilGlobal(g *ssa.Global) bool {
 		}
 	}
 	return eng.nnGlobals[g] == 1
+}
+
+// constFuncGlobal: a package-level variable of function type that is assigned exactly once, in the
+// package initialiser, with a function (e.g. `var SharesToMilliCPU = kubernetes.SharesToMilliCPU`).
+func (eng *Engine) constFuncGlobal(g *ssa.Global) *ssa.Function {
+	if eng.fnGlobals == nil {
+		eng.fnGlobals = map[*ssa.Global]*ssa.Function{}
+		bad := map[*ssa.Global]bool{}
+		for fn := range ssautil.AllFunctions(eng.prog) {
+			for _, b := range fn.Blocks {
+				for _, in := range b.Instrs {
+					st, ok := in.(*ssa.Store)
+					if !ok {
+						continue
+					}
+					gl, ok := st.Addr.(*ssa.Global)
+					if !ok {
+						continue
+					}
+					if _, isSig := derefType(gl.Type()).Underlying().(*types.Signature); !isSig {
+						continue
+					}
+					f, isFn := st.Val.(*ssa.Function)
+					if fn.Name() == "init" && fn.Synthetic != "" && isFn && eng.fnGlobals[gl] == nil && !bad[gl] {
+						eng.fnGlobals[gl] = f
+					} else {
+						bad[gl] = true
+						delete(eng.fnGlobals, gl)
+					}
+				}
+			}
+		}
+	}
+	return eng.fnGlobals[g]
 }
 
 func (eng *Engine) inferredMods(ex *Exec, fn *ssa.Function) *modSet {
